@@ -189,7 +189,14 @@ def main(tier, seed):
             problems.append(msg)
             sigs.append(sig)
         if not sl["ok"]:
-            bad("the code exp2cxx emits for a valid schema does not compile: %s" % sl["log"][-400:])
+            sigc = None
+            # an attribute name that two entities declare, met by the accessors a SELECT class generates for its members
+            clash = {a["name"].lower() for e in S.entities for a in e["attrs"]
+                     if sum(1 for e2 in S.entities for a2 in e2["attrs"] if a2["name"].lower() == a["name"].lower()) > 1}
+            named = set(re.findall(r"->(\w+?)_\(", sl["log"])) | set(re.findall(r"::_(\w+)", sl["log"]))
+            if clash & {n.lower() for n in named} and any(t["kind"] == "select" for t in S.types):
+                sigc = "select_over_clashing_attribute_names"
+            bad("the code exp2cxx emits for a valid schema does not compile: %s" % sl["log"][-400:], sigc)
         else:
             exe = schema_harness(bdir, sl, "h_dict")
             rc, out, err = sh([exe], timeout=120)
